@@ -2,15 +2,18 @@
 import multiprocessing as mp
 import random
 
-from harness import core, htmlnorm, treegen, xdoc
+from harness import core, htmlnorm, treegen, trees, xdoc
 
 GEN = ['gen_tables', 'gen_regex', 'gen_config', 'gen_escapes']
-THEOREMS = ['C03_bounded_trees', 'C03_family_is_not_vacuous']
+THEOREMS = ['C03_fragment_parses', 'C03_fragment_hypotheses', 'C03_bounded_trees', 'C03_family_is_not_vacuous']
 TRUSTED = ['harness/treegen.py: the tree grammar, the speller (every free choice drawn and counted) and the direct HTML writer - the independent oracle; '
            'harness/htmlnorm.py: CommonMark\'s test normalisation',
            'Spec/Spell.v: the Coq twin of the grammar for the kernel sweep (independent of the parser model)',
            'the pipeline model (tied by X-doc on the generated texts); vm_compute for the sweep']
-ASSUMPTIONS = ['PARTIAL: in the kernel the statement is bounded to the family stated in C03_bounded_trees; the full grammar is sampled on the implementation',
+ASSUMPTIONS = ['unbounded theorem on a fragment: one-line plain paragraphs, quotes and single-item lists (all markers, padding 1-4), any size and depth, '
+               'a list last among its siblings: the block tokenizer returns exactly the pre-token tree written from the tree (C03_fragment_parses); the fragment '
+               'stream runs the same trees on the implementation',
+               'PARTIAL beyond the fragment: in the kernel the HTML statement is bounded to the family stated in C03_bounded_trees; the full grammar is sampled on the implementation',
                'tables: default and left alignment are one value of the tree (the renderer writes align="left" for both); empty table bodies are not generated',
                'two streams exercise recorded findings only: setext headings inside quotes (kf_setext_in_quote) and a lazy continuation line after a quoted line '
                'indented four or more spaces (kf_lazy_after_indented_line); a failure there is a known finding only if the same tree passes when respelled '
@@ -60,6 +63,74 @@ def worker(args):
     return tree, want, counts, out
 
 
+FRAG_WORDS = ['alpha', 'b', 'Zed', 'x1', 'end.', 'q)', '(r', 'a-b', 'c+d', 'e=f', '#g', 'h%', '@i', 'j?', 'k,', '"l"', "m'", 'n:', 'o;', '}', '^', '/p', '2.5', '-', '+', '=', '>', '#', '1.', '7)']
+FRAG_FIRST = [w for w in FRAG_WORDS if w[0] not in '#*+-0123456789<>[_`~']
+
+
+def frag_tree(rng, depth):
+    r = rng.random()
+    if depth == 0 or r < 0.4:
+        return ('p', ' '.join([rng.choice(FRAG_FIRST)] + [rng.choice(FRAG_WORDS) for _ in range(rng.randint(0, 4))]))
+    kids = [frag_tree(rng, depth - 1) for _ in range(rng.randint(1, 3))]
+    kids = [k if (i == len(kids) - 1 or k[0] != 'i') else ('q', [k]) for i, k in enumerate(kids)]     # a list only as the last sibling
+    if r < 0.7:
+        return ('q', kids)
+    mk = rng.choice(['-', '+', '*', '1.', '7)', '12.', '123456789)', '0.'])
+    return ('i', mk, rng.randint(1, 4), kids)
+
+
+def frag_spell(t):
+    if t[0] == 'p':
+        return [t[1]]
+    kids = t[-1]
+    inner = []
+    for i, k in enumerate(kids):
+        if i:
+            inner.append('')
+        inner += frag_spell(k)
+    if t[0] == 'q':
+        return ['> ' + l for l in inner]
+    w = len(t[1]) + t[2]
+    return [t[1] + ' ' * t[2] + inner[0]] + [(' ' * w + l) if l else '' for l in inner[1:]]
+
+
+def frag_expect(t, ln):
+    """(dumped tree, line numbers in pre-order)"""
+    if t[0] == 'p':
+        return [trees.TAGS['Paragraph'], [[0, t[1]]]], [ln]
+    kids = t[-1]
+    ds, ls = [], []
+    cur = ln
+    for k in kids:
+        d, l = frag_expect(k, cur)
+        ds.append(d)
+        ls += l
+        cur += len(frag_spell(k)) + 1
+    if t[0] == 'q':
+        return [trees.TAGS['Quote'], ds], [ln] + ls
+    loose = len(kids) > 1
+    start = [] if len(t[1]) == 1 else [int(t[1][:-1])]
+    return [trees.TAGS['List'], start, loose, [[trees.TAGS['ListItem'], t[1], 0, len(t[1]) + t[2], loose, ds]]], [ln, ln] + ls
+
+
+def frag_worker(args):
+    seed, depth = args
+    rng = random.Random(seed)
+    t = frag_tree(rng, depth)
+    text = '\n'.join(frag_spell(t)) + '\n'
+    want_tree, want_lines = frag_expect(t, 1)
+    from mistletoe import Document
+    try:
+        with xdoc.renderer(0):
+            d = Document(text)
+            got = trees.dump(d)[1]
+            gl = trees.block_line_numbers(d)
+    except Exception as e:
+        return text, False, 'EXC %s: %s' % (type(e).__name__, e), None
+    ok = got == [want_tree] and gl == want_lines
+    return text, ok, (got, gl), ([want_tree], want_lines)
+
+
 def run(ctx, only=None):
     ctx.cov['rule'] = ('trees drawn from the seeded grammar of harness/treegen.py (depth up to 4; paragraphs, ATX/setext headings, breaks, fenced/indented code, '
                        'quotes, tight/loose bullet/ordered lists, tables, HTML blocks, link definitions; all inline constructs) x 3 spellings each (markers, '
@@ -103,7 +174,20 @@ def run(ctx, only=None):
     ctx.cov['spelling_choices_taken'] = choices
     ctx.count('distinct_nontrivial', nontriv)
     ctx.sample({'text': res[0][3][0][0], 'expected_html': res[0][1]})
-    xdoc.run(ctx, texts, cfgs=(0,))
+    # the fragment of the unbounded theorem, on the implementation: same trees, same expected structure and line numbers
+    fjobs = [(rng.randint(0, 2 ** 40), 1 + i % 6) for i in range(1500 if ctx.quick() else 40000)]
+    with mp.Pool(core.NPROC) as pool:
+        fres = pool.map(frag_worker, fjobs, chunksize=50)
+    ftexts = []
+    for (seed, depth), (text, ok, got, want) in zip(fjobs, fres):
+        ctx.count('evaluations')
+        ctx.count('fragment_trees')
+        if len(ftexts) < (600 if ctx.quick() else 10000):
+            ftexts.append(text)
+        if not ok:
+            ctx.failing.append({'interface': 'oracle(fragment)', 'input': {'text': text, 'seed': seed, 'depth': depth},
+                                'what': 'a tree of plain paragraphs, quotes and single-item lists does not parse to the tree it was written from', 'observed': got, 'expected': want, 'kf': None})
+    xdoc.run(ctx, texts + ftexts, cfgs=(0,))
 
 
 def replay(ctx, obj):
